@@ -33,6 +33,9 @@ def expand_bits(pn_bits, p, n, k):
     return "".join(out)
 
 
+PREP_CLASSES = {"Requantified", "FreeVar", "UnknownProp"}
+
+
 class Check:
     def __init__(self, prop, tier, seed):
         self.prop = prop
@@ -181,6 +184,9 @@ class Check:
                 self.infra_errors.append("oracle out of fuel on %s" % cid)
         if i[0] == "ERR":
             exp = self.expected_error(case)
+            if exp is not None and i[1] == "Prep":
+                # scoping / proposition error whose wording the harness does not recognise
+                exp = {("Prep" if e in PREP_CLASSES else e) for e in exp}
             if exp is not None and exp and i[1] not in exp:
                 return ("violation", "error class %s, expected one of %s" % (i[1], sorted(exp)))
         if i[0] == "OK":
@@ -193,6 +199,8 @@ class Check:
         # --- tie: implementation vs model
         if model is not None and not impl.get("nomodel"):
             mdl = run.norm(model)
+            if i == ("ERR", "Prep") and mdl[0] == "ERR" and mdl[1] in PREP_CLASSES:
+                mdl = i
             if mdl != i:
                 if mdl[0] == "PANIC":
                     return ("tie", "model predicts a panic (%s), implementation answered %s" % (model.get("payload"), i[0]))
